@@ -530,8 +530,16 @@ def process_tainted(t):
             full = x[1][1]
             if ln in ('hash', '__hash', 'id', 'getpid', 'urandom', 'uuid4', 'uuid1', 'getrandbits', 'mktemp', 'monotonic', 'perf_counter', 'time_ns', 'getrandom',
                       'abspath', 'realpath', 'getcwd', 'expanduser', 'gethostname', 'get_ident', 'resolve', 'absolute'):   # ... the working directory / user / host of the process
-                # klepto.crypto.hash with a named algorithm is a digest; builtin hash is not
+                # klepto.crypto.hash with a named algorithm is a digest; called without one (or with algorithm=None) it is the builtin hash
                 if full.endswith('crypto.hash'):
+                    kws_ = x[3] if len(x) > 3 else ()
+                    alg_ = [k for k in kws_ if k[0] == 'kw' and k[1] == 'algorithm']
+                    pos_alg = len(x[2]) > 1
+                    star_ = any(k[0] == 'dstar' for k in kws_)
+                    if not alg_ and not pos_alg:      # (a ** expansion of the keymap's _config never carries `algorithm`: it is passed by name next to it today)
+                        return True
+                    if alg_ and alg_[0][2] == NONE:
+                        return True
                     return False
                 return True
             if full.startswith('random.') or full.startswith('time.') or full in ('random', 'time'):
